@@ -201,6 +201,7 @@ def P(pid):
             ('RF-E decoder inputs are copied, never computed', rf_frame.rule_decoder_input_integrity, 2),
             ('RF-Y failures of fallible operations are never discarded', rf_errors.rule_errors_not_discarded, 60),
             ('RF-E decoder framing', rf_frame.rule_decoder_framing, 7),
+            ('RF-E array-typed inputs are cut out of octet strings by exact conversions', rf_frame.rule_array_inputs_exact, 3),
             ('RF-D identity / zero exclusion in decoders', lambda c: rf_gates.rule_accept_requirements(c, T.DECODER_REQS), 6),
             ('RF-D every decoded member is tested for the value its decoder refuses', lambda c: rf_gates.rule_decoded_values_tested(c, T.DECODED_MEMBERS), 8),
             ('RF-D the serde decoders refuse what the octet decoders refuse', rf_codec.rule_serde_checked_decoders, 6),
@@ -284,6 +285,7 @@ def P(pid):
             ('RF-K the verifier pins the representative of every transmitted integer', lambda c: CL.rule_canonical_representatives(c, CL.REPRESENTATIVE_SPECS['C14']), 40),
             ('RF-K list fields of the proof have the number of entries the statement requires', lambda c: CL.rule_list_fields_counted(c, CL.REPRESENTATIVE_SPECS['C14']), 4),
             ('RF-C the statement is part of the Fiat-Shamir challenge', lambda c: CL.rule_statement_in_challenge(c, skip=('nisp5_MultiAttr_verify_proof',)), 5),
+            ('RF-C the larger-interval challenges are bound to the commitment of the whole range proof', CL.rule_whole_proof_anchor, 5),
             ('RF-D sub-verifiers cannot be switched off by the proof', CL.rule_checks_not_skippable_by_artefact, 8),
             ('RF-P cursor discipline', CL.rule_cursor_discipline, 10),
             ('RF-W acceptance conditions test the combinations of inputs tested before', lambda c: rf_gatesets.rule_gate_sets(c, group='cl03', only=['verify_proof']), 2),
@@ -306,6 +308,7 @@ def P(pid):
             ('RF-K the verifier pins the representative of every transmitted integer', lambda c: CL.rule_canonical_representatives(c, CL.REPRESENTATIVE_SPECS['C15']), 40),
             ('RF-K list fields of the proof have the number of entries the statement requires', lambda c: CL.rule_list_fields_counted(c, CL.REPRESENTATIVE_SPECS['C15']), 3),
             ('RF-C the statement is part of the Fiat-Shamir challenge', lambda c: CL.rule_statement_in_challenge(c, skip=('nisp2_verify_proof_MultiSecrets',)), 5),
+            ('RF-C the larger-interval challenges are bound to the commitment of the whole range proof', CL.rule_whole_proof_anchor, 5),
             ('RF-Q the larger-interval sub-proofs are given the bound of the remainder', CL.rule_remainder_bound, 3),
             ('RF-D sub-verifiers cannot be switched off by the proof', CL.rule_checks_not_skippable_by_artefact, 8),
             ('RF-P cursor discipline (revealed / hidden position bookkeeping)', CL.rule_cursor_discipline, 10),
@@ -322,6 +325,7 @@ def P(pid):
             ('RF-K the verifier pins the representative of every transmitted integer', lambda c: CL.rule_canonical_representatives(c, CL.REPRESENTATIVE_SPECS['C16']), 20),
             ('RF-C Fiat-Shamir ingredients', CL.rule_range_proof_hash_sites, 15),
             ('RF-C the statement is part of the Fiat-Shamir challenge', lambda c: CL.rule_statement_in_challenge(c, only=('range_proof',)), 3),
+            ('RF-C the larger-interval challenges are bound to the commitment of the whole range proof', CL.rule_whole_proof_anchor, 5),
             ('RF-O prover and verifier agree on the interval of the larger-interval response', CL.rule_response_interval_agreement, 2),
             ('RF-Q the larger-interval sub-proofs are given the bound of the remainder', CL.rule_remainder_bound, 3),
             ('RF-Q tolerance exponent shape', CL.rule_tolerance_exponent, 2),
@@ -371,19 +375,19 @@ CONTROLS = {
     'C01': ['seeded/C01-a/patch.diff', 'seeded/C01-b/patch.diff', 'seeded/C01-c/patch.diff', 'seeded/C01-d/patch.diff', 'seeded/C01-e/patch.diff'],
     'C02': ['selftest/mutants/unfix-1a8aa8f.patch', 'seeded/C02-a/patch.diff', 'seeded/C04-a/patch.diff', 'seeded/C02-b/patch.diff', 'seeded/C02-c/patch.diff', 'seeded/C02-d/patch.diff', 'seeded/C02-e/patch.diff'],
     'C03': ['seeded/C03-a/patch.diff', 'seeded/C03-c/patch.diff', 'seeded/C03-d/patch.diff', 'seeded/C03-e/patch.diff'],
-    'C04': ['selftest/mutants/unfix-4e31b69.patch', 'selftest/mutants/unfix-1c8b8b0.patch', 'selftest/mutants/unfix-99e0eb6.patch', 'selftest/mutants/unfix-44a689e.patch', 'seeded/C04-a/patch.diff', 'seeded/C04-b/patch.diff', 'seeded/C04-c/patch.diff', 'seeded/C04-d/patch.diff'],
+    'C04': ['selftest/mutants/unfix-4e31b69.patch', 'selftest/mutants/unfix-1c8b8b0.patch', 'selftest/mutants/unfix-99e0eb6.patch', 'selftest/mutants/unfix-44a689e.patch', 'seeded/C04-a/patch.diff', 'seeded/C04-b/patch.diff', 'seeded/C04-c/patch.diff', 'seeded/C04-d/patch.diff', 'seeded/C04-f/patch.diff'],
     'C05': ['seeded/C05-a/patch.diff', 'seeded/C05-b/patch.diff', 'seeded/C05-c/patch.diff', 'seeded/C05-d/patch.diff', 'seeded/C05-e/patch.diff'],
-    'C06': ['selftest/mutants/unfix-99e0eb6.patch', 'selftest/mutants/unfix-44a689e.patch', 'seeded/C06-a/patch.diff', 'seeded/C06-b/patch.diff', 'seeded/C06-c/patch.diff', 'seeded/C06-d/patch.diff', 'seeded/C06-e/patch.diff'],
+    'C06': ['selftest/mutants/unfix-99e0eb6.patch', 'selftest/mutants/unfix-44a689e.patch', 'seeded/C06-a/patch.diff', 'seeded/C06-b/patch.diff', 'seeded/C06-c/patch.diff', 'seeded/C06-d/patch.diff', 'seeded/C06-e/patch.diff', 'seeded/C06-f/patch.diff'],
     'C07': ['seeded/C07-a/patch.diff', 'seeded/C07-b/patch.diff', 'seeded/C07-c/patch.diff', 'seeded/C07-d/patch.diff', 'seeded/C07-e/patch.diff'],
     'C08': ['selftest/mutants/unfix-928b770.patch', 'selftest/mutants/unfix-05eab20.patch', 'selftest/mutants/unfix-6597d81.patch', 'seeded/C08-b/patch.diff', 'selftest/mutants/work-unbounded-L.patch', 'seeded/C08-d/patch.diff', 'seeded/C08-e/patch.diff'],
-    'C09': ['selftest/mutants/unfix-928b770.patch', 'selftest/mutants/unfix-4e31b69.patch', 'selftest/mutants/unfix-e3aa4b0.patch', 'selftest/mutants/unfix-1a8aa8f.patch', 'selftest/mutants/unfix-07e52dd.patch', 'selftest/mutants/unfix-dc0c0a4.patch', 'seeded/C09-a/patch.diff', 'seeded/C09-b/patch.diff', 'seeded/C09-c/patch.diff', 'seeded/C09-d/patch.diff', 'seeded/C09-e/patch.diff'],
-    'C10': ['selftest/mutants/unfix-1a8aa8f.patch', 'selftest/mutants/unfix-e3aa4b0.patch', 'seeded/C10-a/patch.diff', 'seeded/C10-b/patch.diff', 'seeded/C10-c/patch.diff', 'seeded/C10-d/patch.diff', 'seeded/C10-e/patch.diff'],
+    'C09': ['selftest/mutants/unfix-928b770.patch', 'selftest/mutants/unfix-4e31b69.patch', 'selftest/mutants/unfix-e3aa4b0.patch', 'selftest/mutants/unfix-1a8aa8f.patch', 'selftest/mutants/unfix-07e52dd.patch', 'selftest/mutants/unfix-dc0c0a4.patch', 'seeded/C09-a/patch.diff', 'seeded/C09-b/patch.diff', 'seeded/C09-c/patch.diff', 'seeded/C09-d/patch.diff', 'seeded/C09-e/patch.diff', 'seeded/C09-f/patch.diff'],
+    'C10': ['selftest/mutants/unfix-1a8aa8f.patch', 'selftest/mutants/unfix-e3aa4b0.patch', 'seeded/C10-a/patch.diff', 'seeded/C10-b/patch.diff', 'seeded/C10-c/patch.diff', 'seeded/C10-d/patch.diff', 'seeded/C10-e/patch.diff', 'seeded/C10-f/patch.diff'],
     'C11': ['seeded/C11-a/patch.diff', 'seeded/C11-b/patch.diff', 'seeded/C11-c/patch.diff', 'seeded/C11-d/patch.diff', 'seeded/C11-e/patch.diff'],
     'C12': ['selftest/mutants/unfix-ae1f505.patch', 'seeded/C12-a/patch.diff', 'seeded/C12-b/patch.diff', 'seeded/C12-c/patch.diff', 'seeded/C12-d/patch.diff', 'seeded/C12-e/patch.diff'],
-    'C13': ['selftest/mutants/unfix-4faa0f0.patch', 'selftest/mutants/unfix-d5d2c0e.patch', 'selftest/mutants/unfix-d882cd3.patch', 'seeded/C13-a/patch.diff', 'seeded/C13-b/patch.diff', 'seeded/C13-c/patch.diff', 'seeded/C13-d/patch.diff', 'seeded/C13-e/patch.diff'],
-    'C14': ['selftest/mutants/unfix-2e6b8d5.patch', 'selftest/mutants/unfix-2d01ace.patch', 'selftest/mutants/unfix-7b76bb5.patch', 'selftest/mutants/unfix-16c9f60.patch', 'seeded/C14-b/patch.diff', 'seeded/C14-d/patch.diff', 'seeded/C14-e/patch.diff'],
-    'C15': ['selftest/mutants/unfix-2d01ace.patch', 'selftest/mutants/unfix-85ebe8e.patch', 'selftest/mutants/unfix-164e21b.patch', 'seeded/C15-a/patch.diff', 'seeded/C15-b/patch.diff', 'seeded/C15-c/patch.diff', 'seeded/C15-d/patch.diff', 'seeded/C15-e/patch.diff'],
-    'C16': ['selftest/mutants/unfix-b52ed69.patch', 'selftest/mutants/unfix-2d81d25.patch', 'selftest/mutants/unfix-96df85f.patch', 'seeded/C16-a/patch.diff', 'seeded/C16-b/patch.diff', 'seeded/C16-c/patch.diff', 'seeded/C16-d/patch.diff'],
+    'C13': ['selftest/mutants/unfix-4faa0f0.patch', 'selftest/mutants/unfix-d5d2c0e.patch', 'selftest/mutants/unfix-d882cd3.patch', 'seeded/C13-a/patch.diff', 'seeded/C13-b/patch.diff', 'seeded/C13-c/patch.diff', 'seeded/C13-d/patch.diff', 'seeded/C13-e/patch.diff', 'seeded/C13-f/patch.diff'],
+    'C14': ['selftest/mutants/unfix-2e6b8d5.patch', 'selftest/mutants/unfix-2d01ace.patch', 'selftest/mutants/unfix-7b76bb5.patch', 'selftest/mutants/unfix-16c9f60.patch', 'seeded/C14-b/patch.diff', 'seeded/C14-d/patch.diff', 'seeded/C14-e/patch.diff', 'seeded/C14-f/patch.diff'],
+    'C15': ['selftest/mutants/unfix-2d01ace.patch', 'selftest/mutants/unfix-85ebe8e.patch', 'selftest/mutants/unfix-164e21b.patch', 'seeded/C15-a/patch.diff', 'seeded/C15-b/patch.diff', 'seeded/C15-c/patch.diff', 'seeded/C15-d/patch.diff', 'seeded/C15-e/patch.diff', 'seeded/C15-f/patch.diff'],
+    'C16': ['selftest/mutants/unfix-b52ed69.patch', 'selftest/mutants/unfix-2d81d25.patch', 'selftest/mutants/unfix-96df85f.patch', 'seeded/C16-a/patch.diff', 'seeded/C16-b/patch.diff', 'seeded/C16-c/patch.diff', 'seeded/C16-d/patch.diff', 'seeded/C16-f/patch.diff'],
     'C17': ['seeded/C17-a/patch.diff', 'seeded/C17-b/patch.diff', 'seeded/C17-c/patch.diff', 'seeded/C17-d/patch.diff', 'seeded/C17-e/patch.diff'],
     'C18': ['seeded/C18-a/patch.diff', 'seeded/C18-b/patch.diff', 'seeded/C18-c/patch.diff', 'seeded/C18-d/patch.diff', 'seeded/C18-e/patch.diff'],
     'C19': ['seeded/C19-a/patch.diff', 'seeded/C19-b/patch.diff', 'seeded/C19-c/patch.diff', 'seeded/C19-d/patch.diff', 'seeded/C19-e/patch.diff'],
